@@ -177,6 +177,17 @@ theorem ti_sound_path_partial (hfix : IsTIFix R env G reach S ins outs) (hT : Tr
   obtain ⟨σ₀, hi0, hex⟩ := key p hp
   exact ti_sound_partial hfix hT hcl hi0 hex e T v hnt hty hev
 
+/-- **C19, `TYPES` annotations** (partial).  Every annotation `(id, T)` the model writes while visiting an
+expression at node `i` (these are what the correspondence compares with the real `anno.Static.TYPES`) belongs to
+an expression `e'` with that id whose values, in any frame reaching `i`, have their type in `T` — provided `e'`
+reads no tainted name. -/
+theorem ti_annotations_sound_partial (hfix : IsTIFix R env G reach S ins outs) (hT : Truthful R sem env)
+    (hcl : TaintClosed R env G reach ins W S) (h0 : InitOk R env S σ₀) (hex : Exec sem env W G σ₀ i σ)
+    (e : Expr) (p : Nat × TySet) (hp : p ∈ annE R env (ins.get i) e) :
+    ∃ e' : Expr, e'.id = p.1 ∧ ∀ v, NoTaint S e' → Eval sem env.bound W σ e' v → InSet v p.2 := by
+  obtain ⟨e', hid, hty⟩ := annE_justified e p hp
+  exact ⟨e', hid, fun v hnt hev => ti_sound_partial hfix hT hcl h0 hex e' p.2 v hnt hty hev⟩
+
 /-! ## "Where it cannot know it reports nothing" -/
 
 /-- A local variable without an entry in `types_in` gets no set: the resolver is not even asked. -/
